@@ -40,12 +40,21 @@ inductive Val where
   | inf                                  -- `max-*: none`
   deriving Repr, BEq, Inhabited
 
+/-- One piece of a `string-set` value: a literal, or a counter.  A counter that only exists in page
+context (`page`, `pages`, counters of `@page`) is missing when the box is built; the value is computed
+again (`parse_again`) after pagination with the counters of the page the box is on, and the new value
+*replaces* the first one in `box.string_set` (`compute_string_set`). -/
+inductive SetPiece where
+  | text (s : String)
+  | counter (name : String)
+  deriving Repr, BEq, Inhabited
+
 structure Section where
   brk : Brk
   name : String
-  sets : List (String × String)
-  innerSets : List (String × String)
-  lateSets : List (String × String)
+  sets : List (String × List SetPiece)
+  innerSets : List (String × List SetPiece)
+  lateSets : List (String × List SetPiece)
   /-- the section ends with a box whose `::before` shows `"p" counter(page) "of" counter(pages) "c" counter(c)` -/
   showCounters : Bool := false
   deriving Repr, BEq, Inhabited
@@ -163,7 +172,15 @@ def contentWidths (ws : List String) (fs : Rat) : Rat × Rat :=
 /-- The named strings of a document: `name → page number → values`. -/
 abbrev Strings := List (String × NameStore)
 
-def sectionSets (s : Section) : List (String × String) := s.sets ++ s.innerSets ++ s.lateSets
+def sectionSets (s : Section) : List (String × List SetPiece) := s.sets ++ s.innerSets ++ s.lateSets
+
+/-- The final value of a `string-set` assignment made on a page whose counters are `cs`. -/
+def setValue (cs : CState) (pieces : List SetPiece) : Except PyErr String :=
+  pieces.foldlM (fun acc p => match p with
+    | .text s => pure (acc ++ s)
+    | .counter n => do
+      let v ← counterValue cs n
+      pure (acc ++ toString v)) ""
 
 def addAssign (st : Strings) (page : Nat) (name value : String) : Strings :=
   let upd (ns : NameStore) : NameStore :=
@@ -174,13 +191,16 @@ def addAssign (st : Strings) (page : Nat) (name value : String) : Strings :=
   | some _ => st.map (fun (n, ns) => if n == name then (n, upd ns) else (n, ns))
   | none => st ++ [(name, upd [])]
 
-/-- `context.string_set[name][i + 1].append(text)` over all pages, in document order. -/
-def collectStrings (pages : List (PageHead × List Section)) : Strings :=
-  let rec go (ps : List (PageHead × List Section)) (n : Nat) (st : Strings) : Strings :=
+/-- `context.string_set[name][i + 1].append(text)` over all pages, in document order; one
+assignment per (box, name), with the value computed from the page's final counters. -/
+def collectStrings (pages : List ((PageHead × List Section) × CState)) : Except PyErr Strings :=
+  let rec go (ps : List ((PageHead × List Section) × CState)) (n : Nat) (st : Strings) : Except PyErr Strings :=
     match ps with
-    | [] => st
-    | (_, secs) :: rest =>
-      let st := secs.foldl (fun st s => (sectionSets s).foldl (fun st (k, v) => addAssign st n k v) st) st
+    | [] => pure st
+    | ((_, secs), cs) :: rest => do
+      let st ← secs.foldlM (fun st s => (sectionSets s).foldlM (fun st (k, v) => do
+        let value ← setValue cs v
+        pure (addAssign st n k value)) st) st
       go rest (n + 1) st
   go pages 1 []
 
@@ -260,7 +280,7 @@ def render (d : Doc) : Except PyErr (List PageOut) := do
   let cascades := pages.map (fun (h, _) => addPageDeclarations d.rules (pageTypeOf h) "")
   let states ← pageStates (cascades.map rawCStyle) initialState
   let total := pages.length
-  let st := collectStrings pages
+  let st ← collectStrings (pages.zip (states.map (fun cs => setPages cs total)))
   let rec go (ps : List ((PageHead × List Section) × Cascaded Val × CState)) (n : Nat) :
       Except PyErr (List PageOut) :=
     match ps with
